@@ -1,5 +1,7 @@
 import AasVerif.Lemmas.SortedEmit
 import AasVerif.Gen.SortSites
+import AasVerif.Props.C05
+import AasVerif.Props.C25
 /-!
 # C22 — Generation is deterministic (the order-normalisation part)
 
@@ -235,5 +237,20 @@ def classifiedSetIterations : List (String × String × String × String) :=
 breaks this theorem and is then decided dynamically by the hash-seed runs of the oracle. -/
 theorem set_iterations_classified :
     ∀ s ∈ Gen.SortSites.setIterations, s ∈ classifiedSetIterations := by decide
+
+
+/-! ## Order-independence of the passes proved for other properties (re-exported) -/
+
+/-- The topological order of the classes (and hence every IR list derived from it) does not
+depend on the order in which the classes are declared/listed (model of `_topologically_sort`, C05). -/
+theorem topo_perm_invariant {cs cs' : List AasVerif.Hier.ParsedClass} (h : cs.Perm cs')
+    (hu : AasVerif.Hier.UniqueNames cs) : AasVerif.Hier.topo cs = AasVerif.Hier.topo cs' :=
+  AasVerif.Props.C05.topo_perm_invariant h hu
+
+/-- Reading the snippet directory gives the same mapping, or the same errors in the same order,
+for every order in which the file system lists the entries (model of `read_from_directory`, C25). -/
+theorem readDir_perm_invariant (es es' : List AasVerif.Snippets.Entry) (hp : es.Perm es')
+    (wf : AasVerif.Snippets.RelFunctional es) : AasVerif.Snippets.read es = AasVerif.Snippets.read es' :=
+  AasVerif.Props.C25.readDir_perm_invariant es es' hp wf
 
 end AasVerif.Props.C22
